@@ -86,10 +86,40 @@ func Event(name string, kv ...string) {
 	traceFile.WriteString(b.String())
 }
 
+var (
+	gateName    string
+	gateAt      int
+	gateCount   int
+	gateReached chan struct{}
+	gateRelease chan struct{}
+)
+
+// SetGate makes the n-th Point(name) from now block until release is called; reached is closed when the
+// point has been reached. A blocking point doubles as a scheduler gate for deterministic interleavings.
+func SetGate(name string, n int) (reached <-chan struct{}, release func()) {
+	mu.Lock()
+	defer mu.Unlock()
+	gateName, gateAt, gateCount = name, n, 0
+	gateReached, gateRelease = make(chan struct{}), make(chan struct{})
+	rel := gateRelease
+	return gateReached, func() { close(rel) }
+}
+
 // Point marks a crash / delay point.
 func Point(name string) {
 	mu.Lock()
 	initOnce()
+	if gateName != "" && name == gateName {
+		gateCount++
+		if gateCount == gateAt {
+			reached, release := gateReached, gateRelease
+			gateName = ""
+			mu.Unlock()
+			close(reached)
+			<-release
+			mu.Lock()
+		}
+	}
 	if pointsFile != nil {
 		pointsFile.WriteString(name + "\n")
 	}
